@@ -33,6 +33,7 @@ UnRegisterDataNode/ec-shards-of-disconnected-server-stay-in-lookup; witness `ec_
 import SwV.Model.C11
 import SwV.Spec.C11
 import SwV.Lemmas.C11Ec
+import SwV.Gen.C11
 namespace SwV.Props.C11
 open SwV.Model.C11 SwV.Spec.C11
 
@@ -2813,5 +2814,106 @@ theorem ec_stays_after_disconnect :
     lookup st 6 = [1, 1] ∧ st.conn 1 = false := by decide
 
 end EcShardMap
+
+/-! ## T1 bridges: facts regenerated from the source by `extract` (props/C11/extract.json → `SwV.Gen.C11`)
+
+Each theorem states the text of a decisive Go condition as it stands in the working tree together with the
+model expression that mirrors it; an edit to the Go condition changes the generated string (or the translated
+function) and breaks the theorem of that name. -/
+
+/-- `ReplicaPlacement.GetCopyCount` (translated from the source) is `copyCount` on the digits of the
+    replica placement byte. -/
+theorem bridge_copy_count (rp : Nat) (h : rp < 1000) :
+    SwV.Gen.C11.ReplicaPlacement_GetCopyCount ((rp % 10 : Nat) : Int) ((rp % 100 / 10 : Nat) : Int) ((rp / 100 : Nat) : Int)
+      = ((copyCount rp : Nat) : Int) := by
+  simp only [SwV.Gen.C11.ReplicaPlacement_GetCopyCount, SwV.Go.wrapS, copyCount]
+  omega
+
+example : SwV.Gen.C11.ReplicaPlacement_GetCopyCount 1 2 0 = ((copyCount 21 : Nat) : Int) := bridge_copy_count 21 (by decide)
+
+/-- `VolumeLayout.enoughCopies` -/
+theorem bridge_enough_copies :
+    SwV.Gen.C11.enough_locations = "locations := vl.vid2location[vid].Length()" ∧
+    SwV.Gen.C11.enough_desired = "desired := vl.rp.GetCopyCount()" ∧
+    SwV.Gen.C11.enough_result = "locations == desired || (vl.replicationAsMin && locations > desired)" ∧
+    ∀ (st : St) (k : Key) (vid : Nat), enoughCopies st k vid =
+      (let locations := (locList st k vid).length
+       let desired := copyCount k.rp
+       locations == desired || (st.asMin && decide (locations > desired))) :=
+  ⟨by decide, by decide, by decide, fun _ _ _ => rfl⟩
+
+/-- `VolumeLayout.ensureCorrectWritables` -/
+theorem bridge_ensure_writables :
+    SwV.Gen.C11.ensure_cond = "vl.enoughCopies(vid) && vl.isAllWritable(vid)" ∧
+    SwV.Gen.C11.ensure_not_oversized = "!vl.oversizedVolumes.IsTrue(vid)" ∧
+    ∀ (st : St) (k : Key) (vid : Nat), ensureWritables st k vid =
+      (if enoughCopies st k vid && isAllWritable st k vid then
+         (if !(!(st.ov k vid).isEmpty) then setWritable st k vid else st)
+       else removeWritable st k vid) := by
+  refine ⟨by decide, by decide, fun st k vid => ?_⟩
+  simp [ensureWritables]
+
+/-- `VolumeLayout.isAllWritable`: only a replica that is known (`getError == nil`) and read-only counts -/
+theorem bridge_all_writable :
+    SwV.Gen.C11.allw_known = "getError == nil" ∧ SwV.Gen.C11.allw_readonly = "v.ReadOnly" ∧
+    ∀ (st : St) (k : Key) (vid : Nat), isAllWritable st k vid =
+      !((locList st k vid).any fun dn => match volOf st dn vid with | some v => v.ro | none => false) := by
+  refine ⟨by decide, by decide, fun st k vid => ?_⟩
+  simp only [isAllWritable, List.all_eq_not_any_not]
+  congr 2; funext dn; cases volOf st dn vid <;> simp
+
+/-- `VolumeLayout.RegisterVolume`: the loop over the location list leaves the writables alone only when
+    every replica is known and writable; `rememberOversizedVolume` / `isOversized` -/
+theorem bridge_register_volume :
+    SwV.Gen.C11.reg_new_list = "!ok" ∧ SwV.Gen.C11.reg_known = "err == nil" ∧
+    SwV.Gen.C11.reg_readonly = "vInfo.ReadOnly" ∧
+    SwV.Gen.C11.oversized_cond = "vl.isOversized(v)" ∧
+    SwV.Gen.C11.oversized_def = "uint64(v.Size) >= vl.volumeSizeLimit" ∧
+    ∀ (st : St) (v : VInfo) (s : Nat),
+      (registerVolume st v s).ov v.key v.id =
+        (if v.size ≥ (touchKey st v.key).limit then setLoc ((touchKey st v.key).ov v.key v.id) s
+         else ((touchKey st v.key).ov v.key v.id).erase s) := by
+  refine ⟨by decide, by decide, by decide, by decide, by decide, fun st v s => ?_⟩
+  simp [registerVolume, updK2]
+
+/-- `VolumeLayout.UnRegisterVolume` and `SetVolumeUnavailable` -/
+theorem bridge_unregister :
+    SwV.Gen.C11.unreg_unknown = "!ok" ∧ SwV.Gen.C11.unreg_removed = "location.Remove(dn)" ∧
+    SwV.Gen.C11.unreg_empty = "location.Length() == 0" ∧
+    SwV.Gen.C11.unavail_removed = "location.Remove(dn)" ∧
+    SwV.Gen.C11.unavail_too_few = "location.Length() < vl.rp.GetCopyCount()" := by decide
+
+/-- the writable list, the location list, lookup, the refresh round and the EC shard map -/
+theorem bridge_lists :
+    SwV.Gen.C11.remove_match = "id == vid" ∧ SwV.Gen.C11.remove_found = "toDeleteIndex >= 0" ∧
+    SwV.Gen.C11.setw_present = "v == vid" ∧
+    SwV.Gen.C11.loclist_set_same = "loc.Ip == dnll.list[i].Ip && loc.Port == dnll.list[i].Port" ∧
+    SwV.Gen.C11.loclist_remove_same = "loc.Ip == dnl.Ip && loc.Port == dnl.Port" ∧
+    SwV.Gen.C11.lookup_all_collections = "collection == \"\"" ∧
+    SwV.Gen.C11.lookup_first_hit = "list != nil" ∧ SwV.Gen.C11.lookup_ec = "found" ∧
+    SwV.Gen.C11.full_was_writable = "!vl.SetVolumeCapacityFull(volumeInfo.Id)" ∧
+    SwV.Gen.C11.collect_full = "v.Size >= volumeSizeLimit" ∧
+    SwV.Gen.C11.ec_add_present = "n.Id() == dn.Id()" ∧ SwV.Gen.C11.ec_del_match = "n.Id() == dn.Id()" ∧
+    SwV.Gen.C11.ec_del_absent = "foundIndex < 0" ∧
+    SwV.Gen.C11.ec_reg_new = "!found" ∧ SwV.Gen.C11.ec_unreg_unknown = "!found" := by decide
+
+/-- weakest supplement: hashes of the whole mirrored functions -/
+theorem bridge_pins :
+    SwV.Gen.C11.src_RegisterVolume = "9fdd7237216919b4" ∧
+    SwV.Gen.C11.src_UnRegisterVolume = "6a27b017d8a8eaaf" ∧
+    SwV.Gen.C11.src_SetVolumeUnavailable = "6c405a10c6006900" ∧
+    SwV.Gen.C11.src_ensureCorrectWritables = "c9cc1ac32e193f8c" ∧
+    SwV.Gen.C11.src_isAllWritable = "63519f7ee4b9ad67" ∧
+    SwV.Gen.C11.src_VolumeLayout_Lookup = "7e24f3c76b87f7fe" ∧
+    SwV.Gen.C11.src_Topology_Lookup = "1cdb6325d172c88a" ∧
+    SwV.Gen.C11.src_RegisterVolumeLayout = "439697d78fa5ee70" ∧
+    SwV.Gen.C11.src_UnRegisterVolumeLayout = "3496bcad33705d52" ∧
+    SwV.Gen.C11.src_SyncDataNodeRegistration = "a7f75c220bd2baf8" ∧
+    SwV.Gen.C11.src_IncrementalSyncDataNodeRegistration = "6047ff96b0c3c5c7" ∧
+    SwV.Gen.C11.src_UnRegisterDataNode = "e112359b6ff7e7cb" ∧
+    SwV.Gen.C11.src_SyncDataNodeEcShards = "3170ee30d6bd5e35" ∧
+    SwV.Gen.C11.src_IncrementalSyncDataNodeEcShards = "63a4b7e55327dfb9" ∧
+    SwV.Gen.C11.src_RegisterEcShards = "7f2bc10ef4e02a33" ∧
+    SwV.Gen.C11.src_UnRegisterEcShards = "4d8b5e959b714d10" := by decide
 
 end SwV.Props.C11
